@@ -13,7 +13,7 @@ def sched_bin(c):
 
 
 def build_sched(c):
-    crate = os.path.join(c.SIM, 'schedsim')
+    crate = os.path.join(c.simroot(), 'schedsim')
     c.ensure_lock(crate)
     env = dict(c.ENV, CARGO_TARGET_DIR=os.path.join(c.TARGET, 'sched' + c.TAG))
     rc, out = c.sh(['cargo', 'build', '--offline', '--quiet', '--release'], cwd=crate, env=env)
@@ -33,7 +33,7 @@ def miri_setup(c, target=None):
     if os.path.isdir(marker):
         return
     cmd = ['cargo', '+nightly', 'miri', 'setup'] + (['--target', target] if target else [])
-    rc, out = c.sh(cmd, cwd=os.path.join(c.SIM, 'mirisim'), env=env)
+    rc, out = c.sh(cmd, cwd=os.path.join(c.simroot(), 'mirisim'), env=env)
     if rc != 0:
         print(out[-4000:])
         c.die('cargo miri setup failed')
@@ -41,7 +41,7 @@ def miri_setup(c, target=None):
 
 def miri_run(c, args, flags, target=None, timeout=None):
     """Run mirisim under Miri. Returns (exit code, output)."""
-    crate = os.path.join(c.SIM, 'mirisim')
+    crate = os.path.join(c.simroot(), 'mirisim')
     c.ensure_lock(crate)
     env = dict(miri_env(c), MIRIFLAGS=' '.join(flags))
     cmd = ['cargo', '+nightly', 'miri', 'run', '--offline', '--quiet'] + (['--target', target] if target else []) + ['--'] + args
@@ -215,3 +215,51 @@ def replay(c, path, j):
         print('not reproduced: Miri runs the recorded program and seed clean on this tree')
         return 0
     c.die(f'unknown engine in {path}')
+
+
+def run_miri_hist(c, prop, n_hist, steps, targets=(None, 'i686-unknown-linux-gnu'), faulting_share=4):
+    """Thorough tiers of C01/C03/C09/C20: histsim's generator executed by the unhooked crate under
+    Miri (out-of-bounds reads, provenance, use after free, leaks) on x86_64 and on i686 (8-byte
+    inline limit, 4-byte words). Histories are split over parallel single-seed Miri processes."""
+    c.gen_shadow()
+    stats = {'histories_per_target': n_hist, 'steps_cap': steps, 'targets': [t or 'x86_64-unknown-linux-gnu' for t in targets], 'executions': 0}
+    violations = []
+    t0 = time.time()
+    for target in targets:
+        miri_setup(c, target)
+        # make sure the binary is built before fanning out
+        miri_run(c, ['hist', '--from', '0', '--to', '0'], [], target=target)
+        jobs = max(1, min(c.JOBS, n_hist))
+        per = (n_hist + jobs - 1) // jobs
+        chunks = [(k * per, min((k + 1) * per, n_hist)) for k in range(jobs) if k * per < n_hist]
+
+        def one(ch):
+            a, z = ch
+            args = ['hist', '--seed', str(c.SEED), '--from', str(a), '--to', str(z), '--prop', prop, '--steps', str(steps)]
+            if a % faulting_share == faulting_share - 1:
+                args.append('--faulting')
+            rc, out = miri_run(c, args, ['-Zmiri-seed=0'], target=target, timeout=6 * 3600)
+            return ch, args, rc, out
+
+        with cf.ThreadPoolExecutor(max_workers=jobs) as ex:
+            for (a, z), args, rc, out in ex.map(one, chunks):
+                done = re.findall(r'^HISTORY (\d+)', out, re.M)
+                stats['executions'] += len(done)
+                if rc != 0:
+                    idx = int(done[-1]) if done else a
+                    detail = miri_error_summary(out)
+                    m = re.search(r'VIOLATION-DETAIL (.*)', out)
+                    if m:
+                        detail = m.group(1)[:400]
+                    os.makedirs(c.REPLAYS, exist_ok=True)
+                    tname = target or 'x86_64'
+                    path = os.path.join(c.REPLAYS, f'{prop}-mirisim-hist-{c.SEED}-{idx}-{tname}.json')
+                    json.dump({'property': prop, 'engine': 'mirisim', 'mode': 'hist', 'seed': c.SEED, 'index': idx, 'prop': prop,
+                               'target': target, 'miri_seed': 0, 'preemption_rate': '0.01',
+                               'extra_args': [x for x in args if x in ('--faulting',)] + ['--steps', str(steps)],
+                               'miri_error': detail, 'output_tail': out[-3000:]}, open(path, 'w'), indent=1)
+                    violations.append({'class': f'miri_hist|{tname}', 'count': 1, 'replay': path,
+                                       'violation': {'invariant': 'miri_hist_error', 'op': f'history {idx}', 'target': tname,
+                                                     'fault': 'none', 'detail': detail}})
+    stats['wall_s'] = round(time.time() - t0, 1)
+    return stats, violations
